@@ -474,6 +474,9 @@ class SyncObj(object):
                 if changeClusterRequest is None or self.__changeCluster(changeClusterRequest):
 
                     self.__raftLog.add(command, idx, term)
+                    if changeClusterRequest is not None:
+                        # Further cluster changes are denied until this one is committed
+                        self.__changeClusterIDx = idx
 
                     if requestNode is None:
                         if callback is not None:
